@@ -55,7 +55,7 @@ func genSetOp(t *rapid.T) op {
 // opGroup draws one op (or a short burst). Lists are built with rapid.SliceOfN so that rapid can
 // shrink a failing history by deleting elements.
 func opGroup(nmsg int, withCleanup, withInject bool) *rapid.Generator[[]op] {
-	kinds := []string{"observe", "observe", "loopback", "loopback", "gossip", "gossip", "gossip", "gossip", "gossipvalid", "gossipvalid", "gossipvalid", "gossipvalid", "inbound", "inbound", "set", "quorumrun", "quorumrun", "settle"}
+	kinds := []string{"observe", "observe", "loopback", "loopback", "gossip", "gossip", "gossip", "gossip", "gossipvalid", "gossipvalid", "gossipvalid", "gossipvalid", "inbound", "inbound", "set", "quorumrun", "quorumrun", "settle", "replay"}
 	if withCleanup {
 		kinds = append(kinds, "cleanup")
 	}
@@ -101,6 +101,10 @@ func opGroup(nmsg int, withCleanup, withInject bool) *rapid.Generator[[]op] {
 			return []op{genSetOp(t)}
 		case "settle":
 			return []op{{K: "settle"}}
+		case "replay": // a member's genuine observation of one message, then its signature again under another message's digest
+			m := rapid.IntRange(0, nmsg-1).Draw(t, "m")
+			sgn := rapid.IntRange(0, 6).Draw(t, "signer")
+			return []op{{K: "gossip", A: m + 1, B: sgn, C: 0}, {K: "gossip", A: m, B: sgn, C: obsKindIdx("other-digest")}}
 		case "cleanup":
 			return []op{{K: k, A: rapid.IntRange(0, 7).Draw(t, "shift")}}
 		}
